@@ -74,6 +74,13 @@ func thresholdTargets(c *Ctx, sizeBound bool) {
 		bm := &BM{B: res, M: want.Clone()}
 		when := op + "-" + formName
 		c.Step("%s form of %s", formName, op)
+		if r.Chance(0.3) {
+			c.Step("RunOptimize() on the result")
+			if c.Guard("threshold/"+op+"/"+formName+"/RunOptimize", func() { res.RunOptimize() }) {
+				return
+			}
+			when += "-RunOptimize"
+		}
 		if !judge(bm, "after-"+when) {
 			return
 		}
